@@ -146,7 +146,7 @@ fn vq_c04_icfc_on_transmit() {
         let (tag, wire) = context.tag_and_varint();
         // RFC 9000 19.9: MAX_DATA frame type 0x10, Maximum Data (i)
         assert!(tag == 0x10, "C04/icfc.on_transmit/frame_is_max_data");
-        assert!(wire as i128 == old.advertised, "C04/icfc.on_transmit/max_data_value_is_advertised");
+        assert!(icfc_transmit_wire_is_advertised(old, true, wire as i128), "C04/icfc.on_transmit/max_data_value_is_advertised");
         assert!(wire as i128 <= old.consumed + old.window, "C04/icfc.on_transmit/wire_credit_le_consumed_plus_window");
         assert!(r.is_ok(), "C04/icfc.on_transmit/ok_when_written");
     }
